@@ -21,6 +21,19 @@ What is compared on every run (both views, stoichiometry on/off, node keys kind 
    refinement cache by `id()` of a dead temporary) replaced by a never-repeating counter and by a
    constant gives the same canonical graph — both are legal allocator behaviours.
 
+5. *history independence* (stream `history`): one `CRNHyperGraph` object is analysed, edited in place
+   through its public API (a reaction removed and added again under the same id with other content,
+   `remove_species(prune_orphans=False)`, coefficients / rule of a stored reaction changed directly,
+   reactions added / removed, copies forked off and edited), analysed again by NEW helper objects —
+   possibly several times, under interleaved option sets (stoichiometry / view type / attribute keys flipped
+   relative to the final query, with or without an edit in between), through the classes and through the
+   functional wrappers, in varying order — and the last analysis is gated exactly like a fresh
+   network: against the Lean model of the CURRENT content (the model is pure, it never sees the
+   history) and, through kernel agreement, against a freshly built identical network and against the
+   starting network.  Helper objects created before an edit and asked again afterwards must describe
+   either the network they were created on (their view is documented as cached) or the current one.
+   Analyses must leave the network's content untouched.
+
 A network in which a species label equals a reaction id is classified `species_label_is_edge_id`
 (finding F19: the un-prefixed string ids of the bipartite view collide).
 """
@@ -60,7 +73,12 @@ CONFIGS = [
     {"name": "species-stoich", "bip": False, "stoich": False, "nk": ["kind"], "ek": ["role", "stoich"]},
     {"name": "bip+stoich+label", "bip": True, "stoich": True, "nk": ["kind", "label"], "ek": ["role", "stoich"]},
 ]
-CFG = {c["name"]: c for c in CONFIGS}
+# option-variation configurations (permuted key lists, more node keys); used by the history stream and on the symmetric families
+CONFIGS_X = [
+    {"name": "bip+stoich/keys-permuted", "bip": True, "stoich": True, "nk": ["kind"], "ek": ["stoich", "role"]},
+    {"name": "species+stoich+label/keys-permuted", "bip": False, "stoich": True, "nk": ["label", "kind"], "ek": ["stoich_p", "stoich_r"]},
+]
+CFG = {c["name"]: c for c in CONFIGS + CONFIGS_X}
 SETLIKE = ("via", "rules", "stoich_r_map", "stoich_p_map")
 
 
@@ -128,7 +146,10 @@ def mapping_list(m, name):
 
 
 # ---------------------------------------------------------------- implementation adapter
-def build(net):
+def build(net, cfg=None, helpers=None):
+    """The network as a store.  A net may carry a `history` (in-place edits and analyses, run in order
+    on the one object) and the flag `rebuild` (the final content is read out and added reaction by
+    reaction, under the same ids, to a brand-new object; analyses of the history are skipped)."""
     from synkit.CRN.Hypergraph.hypergraph import CRNHyperGraph
 
     H = CRNHyperGraph()
@@ -138,6 +159,162 @@ def build(net):
         if s not in H.species:
             H.add_rxn({s: 1}, {}, rule="iso", edge_id=f"__iso{k}")
             H.remove_species(s, prune_orphans=False)
+    if net.get("history"):
+        H = apply_history(H, net["history"], cfg, helpers, analyse=not net.get("rebuild"))
+    if net.get("rebuild"):
+        F = CRNHyperGraph()
+        for eid, e in H.edges.items():
+            F.add_rxn(dict(e.reactants.items()), dict(e.products.items()), rule=e.rule, edge_id=eid)
+        for k, s in enumerate(sorted(H.species - F.species)):
+            F.add_rxn({s: 1}, {}, rule="iso", edge_id=f"__iso{k}")
+            F.remove_species(s, prune_orphans=False)
+        H = F
+    return H
+
+
+class HistoryError(Exception):
+    pass
+
+
+def lbl_orbits(orbs):
+    return sorted(sorted(str(x) for x in o) for o in orbs)
+
+
+def raw_canon(s, cfg):
+    """What a canonicaliser summary says, free of the harness' node numbering (labels as strings)."""
+    return {"graph": json.dumps(key_graph(enc_graph(s["canon_graph"], int), cfg)), "count": int(s["automorphism_count"]), "orbits": lbl_orbits(s["orbits"])}
+
+
+def raw_vf2(r):
+    return {"count": int(r["automorphism_count"]), "orbits": lbl_orbits(r["orbits"])}
+
+
+def raw_wl(w, cfg):
+    return {"graph": json.dumps(key_graph(enc_graph(w["canon_graph"], int), cfg))}
+
+
+def make_vf2(H, cfg, kw):
+    from synkit.CRN.Topo.automorphism import CRNAutomorphism
+
+    try:
+        return CRNAutomorphism(H, edge_attr_keys=tuple(cfg["ek"]), **kw), True
+    except TypeError:
+        return CRNAutomorphism(H, **kw), False  # tree without the edge_attr_keys parameter
+
+
+def analyse_once(H, cfg, who, helpers, cfg_is_final):
+    """One analysis step of a history: fresh helper objects (or the functional wrappers) in the given order.
+    Helpers created under the configuration of the final query are kept, with what they said, for the re-use gate."""
+    from synkit.CRN.Topo.canon import CRNCanonicalizer, canonical
+    from synkit.CRN.Topo.automorphism import detect_automorphisms
+    from synkit.CRN.Topo.wl_canon import WLCanonicalizer, wl_canonical
+
+    kw = dict(include_rule=cfg["bip"], include_stoich=cfg["stoich"], node_attr_keys=tuple(cfg["nk"]))
+    ek = tuple(cfg["ek"])
+    for w in who:
+        kind, obj, said = w.split("_")[0], None, None
+        if w == "canon":
+            obj = CRNCanonicalizer(H, edge_attr_keys=ek, **kw)
+            said = raw_canon(obj.summary(), cfg)
+        elif w == "canon_fn":
+            obj = canonical(H, edge_attr_keys=ek, **kw)
+            said = raw_canon(obj.summary(), cfg)
+        elif w == "vf2":
+            obj, _ = make_vf2(H, cfg, kw)
+            said = raw_vf2(obj.summary(max_count=10 ** 7, timeout_sec=None))
+        elif w == "vf2_fn":
+            detect_automorphisms(H, max_count=None, timeout_sec=None, **kw)
+        elif w == "wl":
+            obj = WLCanonicalizer(H, edge_attr_keys=ek, **kw)
+            said = raw_wl(obj.summary(), cfg)
+        elif w == "wl_fn":
+            obj = wl_canonical(H, edge_attr_keys=ek, **kw)
+            said = raw_wl(obj.summary(), cfg)
+        else:
+            raise HistoryError(f"unknown analyser {w!r}")
+        if helpers is not None and obj is not None and cfg_is_final:
+            helpers.append({"kind": kind, "obj": obj, "said": said, "hg": H})
+
+
+def resolve_cfg(cfg, spec):
+    """Options of an analysis step of a history, possibly relative to the options of the final query."""
+    if spec == "same":
+        return cfg
+    if spec == "stoich-flipped":  # same view type, stoichiometry on <-> off
+        return dict(cfg, stoich=not cfg["stoich"], name=cfg["name"] + "~stoich")
+    if spec == "view-flipped":  # bipartite <-> species view
+        return dict(cfg, bip=not cfg["bip"], ek=(["stoich_r", "stoich_p"] if cfg["bip"] else ["role", "stoich"]), name=cfg["name"] + "~view")
+    if spec == "keys-flipped":  # same view, other attribute selection
+        return dict(cfg, nk=(["kind", "label"] if cfg["nk"] == ["kind"] else ["kind"]), ek=list(reversed(cfg["ek"])), name=cfg["name"] + "~keys")
+    return CFG[spec]
+
+
+def _pick_edge(H, op):
+    if not H.edges:
+        return None
+    if op.get("eid") in H.edges:
+        return op["eid"]
+    return sorted(H.edges)[op.get("k", 0) % len(H.edges)]
+
+
+def apply_history(H, hist, cfg, helpers, analyse=True, keep=None):
+    """Run a history on the object H (and on copies forked off it); returns the object the final query is about.
+    Positions (`k`, `j`) are taken modulo the current sizes and an edit that does not apply to the current content
+    is skipped, so that every history is applicable to every network (needed for shrinking)."""
+    keep = [] if keep is None else keep  # every object of the history stays alive until the final query
+    keep.append(H)
+    for op in hist:
+        o = op["op"]
+        if o == "analyse":
+            if analyse and cfg is not None:
+                c = resolve_cfg(cfg, op.get("config", "same"))
+                before = json.dumps(model_net(H), sort_keys=True)
+                analyse_once(H, c, op.get("who", ["canon"]), helpers, c["name"] == cfg["name"])
+                if json.dumps(model_net(H), sort_keys=True) != before:
+                    raise HistoryError("an analysis changed the content of the network it was given")
+        elif o == "analyse_other":
+            if analyse and cfg is not None:
+                c = resolve_cfg(cfg, op.get("config", "same"))
+                O = build(op["net"])
+                keep.append(O)
+                analyse_once(O, c, op.get("who", ["canon"]), None, False)
+        elif o == "replace":
+            eid = _pick_edge(H, op)
+            r, p = dict(map(tuple, op["r"])), dict(map(tuple, op["p"]))
+            if eid is not None and (any(c > 0 for c in r.values()) or any(c > 0 for c in p.values())):
+                H.remove_rxn(eid)
+                H.add_rxn(r, p, rule=op.get("rule"), edge_id=eid)
+        elif o == "add":
+            r, p = dict(map(tuple, op["r"])), dict(map(tuple, op["p"]))
+            if op.get("eid") not in H.edges and (any(c > 0 for c in r.values()) or any(c > 0 for c in p.values())):
+                H.add_rxn(r, p, rule=op.get("rule"), edge_id=op.get("eid"))
+        elif o == "remove":
+            eid = _pick_edge(H, op)
+            if eid is not None:
+                H.remove_rxn(eid)
+        elif o == "drop_species":
+            if H.species:
+                H.remove_species(sorted(H.species)[op.get("k", 0) % len(H.species)], prune_orphans=bool(op.get("prune")))
+        elif o == "coef":
+            eid = _pick_edge(H, op)
+            if eid is not None:
+                side = H.edges[eid].reactants if op.get("side") == "r" else H.edges[eid].products
+                if len(side) and int(op["c"]) >= 1:
+                    side[sorted(side.keys())[op.get("j", 0) % len(side)]] = int(op["c"])
+        elif o == "rule":
+            eid = _pick_edge(H, op)
+            if eid is not None and op.get("rule"):
+                H.edges[eid].rule = op["rule"]
+        elif o == "fork":
+            C = H.copy()
+            if op.get("on") == "copy":  # the side history runs on the original, the main line continues on the copy
+                apply_history(H, op.get("other", []), cfg, helpers, analyse, keep)
+                H = C
+                keep.append(H)
+            else:
+                apply_history(C, op.get("other", []), cfg, helpers, analyse, keep)
+        else:
+            raise HistoryError(f"unknown history step {o!r}")
     return H
 
 
@@ -205,14 +382,23 @@ def epoch_schedules(make):
 def impl_eval(net, cfg):
     """Run both analysers (and the WL canonicaliser) on one network under one configuration."""
     from synkit.CRN.Topo.canon import CRNCanonicalizer
-    from synkit.CRN.Topo.automorphism import CRNAutomorphism
     from synkit.CRN.Topo.wl_canon import WLCanonicalizer
 
-    H = build(net)
+    helpers, hist_error = [], None
+    try:
+        H = build(net, cfg, helpers)
+    except Exception as e:  # noqa: BLE001 - a history that cannot be run is an observable of the check
+        if not net.get("history"):
+            raise
+        hist_error = f"{type(e).__name__}: {e}"
+        helpers = []
+        H = build({k: v for k, v in net.items() if k != "history"})
     mnet = model_net(H)
     labels, eids = mnet["labels"], [r["id"] for r in mnet["rxns"]]
     collision = sorted(set(labels) & set(eids))
     res = {"mnet": mnet, "collision": collision, "errors": {}}
+    if hist_error:
+        res["errors"]["history (edits / earlier analyses of the same object)"] = hist_error
     names = {s: i for i, s in enumerate(labels)}
     if cfg["bip"]:
         for j, e in enumerate(eids):
@@ -241,6 +427,7 @@ def impl_eval(net, cfg):
             "orbits_raw": [sorted(name(x) for x in o) for o in s["orbits"]],
             "maps": sorted(mapping_list(m, name) for m in s["mappings"]),
             "early": bool(s["early_stop"]),
+            "said": raw_canon(s, cfg),
         }
         # determinism: the same object asked again, and a fresh object
         s2 = cz.summary()
@@ -262,14 +449,10 @@ def impl_eval(net, cfg):
         return res
     # -- VF2 analyser
     try:
-        try:
-            a = CRNAutomorphism(H, edge_attr_keys=tuple(cfg["ek"]), **kw)
-            res["vf2_edge_keys"] = True
-        except TypeError:
-            a = CRNAutomorphism(H, **kw)  # tree without the edge_attr_keys parameter
-            res["vf2_edge_keys"] = False
+        a, res["vf2_edge_keys"] = make_vf2(H, cfg, kw)
         r = a.summary(max_count=10 ** 7, timeout_sec=None)
         res["vf2"] = {
+            "said": raw_vf2(r),
             "count": int(r["automorphism_count"]),
             "orbits_raw": [sorted(name(x) for x in o) for o in r["orbits"]],
             "maps": sorted(mapping_list(m, name) for m in r["sample_mappings"]),
@@ -288,9 +471,22 @@ def impl_eval(net, cfg):
     # -- WL canonicaliser (documented as approximate: only faithfulness of its graph is gated)
     try:
         w = WLCanonicalizer(H, edge_attr_keys=tuple(cfg["ek"]), **kw).summary()
-        res["wl"] = {"graph": enc_graph(w["canon_graph"], int), "cells": [sorted(name(x) for x in o) for o in w["orbits"]]}
+        res["wl"] = {"graph": enc_graph(w["canon_graph"], int), "cells": [sorted(name(x) for x in o) for o in w["orbits"]], "said": raw_wl(w, cfg)}
     except Exception as e:  # noqa: BLE001
         res["errors"]["wl"] = f"{type(e).__name__}: {e}"
+    # -- helper objects created earlier in the history (same configuration), asked again now
+    res["reuse"] = []
+    for h in helpers[-6:]:
+        try:
+            if h["kind"] == "canon":
+                again = raw_canon(h["obj"].summary(), cfg)
+            elif h["kind"] == "vf2":
+                again = raw_vf2(h["obj"].summary(max_count=10 ** 7, timeout_sec=None))
+            else:
+                again = raw_wl(h["obj"].summary(), cfg)
+            res["reuse"].append({"kind": h["kind"], "then": h["said"], "again": again, "same_object": h["hg"] is H})
+        except Exception as e:  # noqa: BLE001
+            res["errors"]["helper created before an edit, asked again"] = f"{type(e).__name__}: {e}"
     return res
 
 
@@ -394,8 +590,12 @@ def evaluate(ctx, families, tag, all_pairs=True, shrink=True):
         ctx.count("aut_count:" + ("1" if lk["analyse"]["count"] == 1 else "2" if lk["analyse"]["count"] == 2 else ">2"))
         if r["collision"]:
             ctx.count("class:" + F19)
-        ctx.case([r["mnet"], cn], nontrivial=(n_nodes >= 3 and n_arcs >= 2),
-                 sample={"stream": tag, "net": families[fi][0][ni], "config": cn} if n_nodes <= 5 else None)
+        this = families[fi][0][ni]
+        hist = this.get("history")
+        ctx.case([r["mnet"], cn] + ([this["rxns"], hist, bool(this.get("rebuild"))] if hist else []), nontrivial=(n_nodes >= 3 and n_arcs >= 2),
+                 sample={"stream": tag, "net": this, "config": cn} if n_nodes <= 5 else None)
+        if hist:
+            count_history(ctx, this)
         for where, msg in r["errors"].items():
             report(f"{where} raised an exception", fi, [ni], cn, {"error": msg}, [r], single=True)
         if not view["wf"] or not view["wfd"]:
@@ -460,6 +660,16 @@ def evaluate(ctx, families, tag, all_pairs=True, shrink=True):
             coarse = all(len({cell.get(x) for x in o}) == 1 for o in want["orbits"])
             ctx.count("wl_cells_coarsen_orbits:" + str(coarse))
             ctx.count("wl_cells_equal_orbits:" + str(sorted(w["cells"]) == want["orbits"]))
+        # 5. helper objects created before an edit and asked again: the network they were built on, or the current one
+        now = {"canon": (c or {}).get("said"), "vf2": (v or {}).get("said"), "wl": (w or {}).get("said")}
+        for u in r.get("reuse", []):
+            if now[u["kind"]] is None:
+                continue
+            verdict = "current" if u["again"] == now[u["kind"]] else "as-created" if u["again"] == u["then"] else "neither"
+            ctx.count(f"reused_helper:{u['kind']}:{'unchanged-network' if u['then'] == now[u['kind']] else verdict}")
+            if verdict == "neither":
+                report("a helper object asked again after the network was edited describes neither the network it was created on nor the current one",
+                       fi, [ni], cn, {"helper": u["kind"], "said_when_created": u["then"], "says_now": u["again"], "new_helper_says": now[u["kind"]]}, [r], single=True)
     # 2. kernel agreement
     for pk, (fi, cn, i, j, ki, kj) in enumerate(pairs):
         ri, rj = items[ki][3], items[kj][3]
@@ -549,6 +759,14 @@ def shrink_net(ctx, net, cn, what, budget=60):
                         c = json.loads(json.dumps(cur)); c["rxns"][i][side][k][1] = co - 1; cands.append(c)
         if cur.get("isolated"):
             c = json.loads(json.dumps(cur)); c["isolated"] = []; cands.append(c)
+        for i, op in enumerate(cur.get("history", [])):
+            c = json.loads(json.dumps(cur)); del c["history"][i]; cands.insert(i, c)
+            if op["op"] == "fork":
+                for j in range(len(op.get("other", []))):
+                    c = json.loads(json.dumps(cur)); del c["history"][i]["other"][j]; cands.append(c)
+            if op["op"] in ("analyse", "analyse_other") and len(op.get("who", [])) > 1:
+                for j in range(len(op["who"])):
+                    c = json.loads(json.dumps(cur)); del c["history"][i]["who"][j]; cands.append(c)
         for c in cands:
             n += 1
             if n > budget:
@@ -730,6 +948,174 @@ def batches(xs, n):
         yield xs[i:i + n]
 
 
+# ---------------------------------------------------------------- histories on one object
+def sim_ids(net):
+    """Ids the store hands out for the reactions of `net`, in order (explicit ids kept; generated ids rule_n)."""
+    taken, counters, out = set(), {}, []
+    for q in net["rxns"]:
+        rule = q.get("rule") or "r"
+        eid = q.get("eid")
+        if eid is None:
+            cnt = counters.get(rule, 0) + 1
+            while f"{rule}_{cnt}" in taken:
+                cnt += 1
+            counters[rule] = cnt
+            eid = f"{rule}_{cnt}"
+        taken.add(eid)
+        out.append(eid)
+    return out
+
+
+def net_species(net):
+    return sorted({s for r in net["rxns"] for s, _ in r["r"] + r["p"]} | set(net.get("isolated", [])))
+
+
+ANALYSERS = ["canon", "vf2", "wl"]
+
+
+def analyse_op(rnd, same=0.8, kind="analyse"):
+    who = rnd.sample(ANALYSERS, rnd.choice([1, 1, 2, 3]))
+    who = [w + ("_fn" if rnd.random() < 0.25 else "") for w in who]
+    other = ["stoich-flipped", "stoich-flipped", "view-flipped", "keys-flipped", rnd.choice(sorted(CFG))]
+    return {"op": kind, "config": "same" if rnd.random() < same else rnd.choice(other), "who": who}
+
+
+def variant_of(q, rnd):
+    """Other content for a stored reaction over (mostly) the same species: one coefficient, one species moved across
+    the arrow, sides swapped."""
+    for _ in range(4):
+        nm = near_miss({"rxns": [json.loads(json.dumps(q))]}, rnd)
+        if nm and nm[1] != "rule":
+            return nm[0]["rxns"][0]
+    return {"r": q["p"], "p": q["r"], "rule": q.get("rule")}
+
+
+def random_rxn(rnd, sp):
+    kr, kp = rnd.choice([0, 1, 1, 2, 2]), rnd.choice([0, 1, 1, 2, 2])
+    if kr + kp == 0:
+        kp = 1
+    co = lambda: rnd.choice([1, 1, 2, 3])
+    return rx([(s, co()) for s in rnd.sample(sp, min(kr, len(sp)))], [(s, co()) for s in rnd.sample(sp, min(kp, len(sp)))])
+
+
+def edit_ops(rnd, net, ids, sp):
+    """One in-place edit (a list of history steps; `revert` is an edit followed by its inverse)."""
+    nr = len(net["rxns"])
+    kinds = ["replace-variant"] * 5 + ["replace-random"] * 2 + ["coef"] * 3 + ["drop-keep"] * 3 + ["drop-prune", "add", "remove", "rule", "replace-same", "revert"]
+    if nr == 0:
+        kinds = ["add"]
+    kind = rnd.choice(kinds)
+    k = rnd.randrange(nr) if nr else 0
+    q = net["rxns"][k] if nr else None
+    at = {"eid": ids[k], "k": k} if nr else {}
+    if kind in ("replace-variant", "revert"):
+        v = variant_of(q, rnd)
+        ops = [{"op": "replace", **at, "r": v["r"], "p": v["p"], "rule": q.get("rule")}]
+        if kind == "revert":
+            ops.append({"op": "replace", **at, "r": q["r"], "p": q["p"], "rule": q.get("rule")})
+    elif kind == "replace-random":
+        v = random_rxn(rnd, sp)
+        ops = [{"op": "replace", **at, "r": v["r"], "p": v["p"], "rule": q.get("rule")}]
+    elif kind == "replace-same":
+        ops = [{"op": "replace", **at, "r": q["r"], "p": q["p"], "rule": q.get("rule")}]
+    elif kind == "coef":
+        ops = [{"op": "coef", **at, "side": rnd.choice(["r", "p"]) if q["r"] and q["p"] else ("r" if q["r"] else "p"), "j": rnd.randrange(3), "c": rnd.choice([1, 2, 2, 3])}]
+    elif kind in ("drop-keep", "drop-prune"):
+        ops = [{"op": "drop_species", "k": rnd.randrange(max(1, len(sp))), "prune": kind == "drop-prune"}]
+    elif kind == "add":
+        v = random_rxn(rnd, sp + ["N"] if rnd.random() < 0.3 else (sp or ["A", "B"]))
+        ops = [{"op": "add", "r": v["r"], "p": v["p"], "rule": rnd.choice([None, None, "R1"]), "eid": rnd.choice([None, None, "x%d" % rnd.randrange(3)])}]
+    elif kind == "remove":
+        ops = [{"op": "remove", **at}]
+    else:
+        ops = [{"op": "rule", **at, "rule": rnd.choice([x for x in ["r", "R1", "R2", "k"] if x != (q.get("rule") or "r")])}]
+    return kind, ops
+
+
+def random_history(rnd, net):
+    """analyse -> edit in place -> (analyse / edit / fork ...)*: the final query follows at least one edit that came
+    after at least one analysis (with high probability under the options of the final query)."""
+    ids, sp = sim_ids(net), net_species(net)
+    hist = [analyse_op(rnd, same=0.9)]
+    if rnd.random() < 0.25:
+        hist.insert(0, analyse_op(rnd, same=0.3))
+    kinds = []
+    n_more = rnd.choice([1, 1, 1, 2, 2, 3])
+    for i in range(n_more):
+        kind, ops = edit_ops(rnd, net, ids, sp)
+        kinds.append(kind)
+        u = rnd.random()
+        if u < 0.12:  # a copy is forked off: one of the two objects gets the edit (and is analysed), the query goes to the other or to the same
+            side = ops + ([analyse_op(rnd)] if rnd.random() < 0.6 else [])
+            hist.append({"op": "fork", "on": rnd.choice(["copy", "orig"]), "other": side})
+            kinds[-1] = "fork:" + kind
+            kind2, ops2 = edit_ops(rnd, net, ids, sp)
+            hist.extend(ops2); kinds.append(kind2)
+        else:
+            hist.extend(ops)
+        if i < n_more - 1 and rnd.random() < 0.6:
+            hist.append(analyse_op(rnd))
+    u = rnd.random()
+    if u < 0.3:  # the query is then the second one after the last edit, possibly with other options in between
+        hist.append(analyse_op(rnd, same=0.4))
+    elif u < 0.45 and net["rxns"]:  # another network with the same species labels and reaction ids is analysed in between
+        other = json.loads(json.dumps(net))
+        k = rnd.randrange(len(other["rxns"]))
+        v = variant_of(other["rxns"][k], rnd)
+        other["rxns"][k] = {"r": v["r"], "p": v["p"], "rule": other["rxns"][k].get("rule"), "eid": other["rxns"][k].get("eid")}
+        hist.append({**analyse_op(rnd, same=1.0, kind="analyse_other"), "net": {"rxns": other["rxns"], "isolated": other.get("isolated", [])}})
+    return hist, kinds
+
+
+def history_family(net, hist):
+    """[edited-in-place object, brand-new object with the same final content and ids, starting network]"""
+    base = {"rxns": net["rxns"], "isolated": net.get("isolated", [])}
+    return [{**base, "history": hist}, {**base, "history": hist, "rebuild": True}, base]
+
+
+def structured_histories(rnd):
+    """Every symmetric family: analysed (all three helpers), one reaction replaced under its id by a variant (or one
+    species dropped but kept as orphan / one coefficient changed directly), queried again."""
+    out = []
+    for name, net in symmetric_families():
+        if not net["rxns"] or "zero" in name:
+            continue
+        ids, sp = sim_ids(net), net_species(net)
+        for flavour in ("replace", rnd.choice(["drop", "coef"])):
+            k = rnd.randrange(len(net["rxns"]))
+            q = net["rxns"][k]
+            if flavour == "replace":
+                v = variant_of(q, rnd)
+                ed = {"op": "replace", "eid": ids[k], "k": k, "r": v["r"], "p": v["p"], "rule": q.get("rule")}
+            elif flavour == "drop":
+                ed = {"op": "drop_species", "k": rnd.randrange(len(sp)), "prune": False}
+            else:
+                ed = {"op": "coef", "eid": ids[k], "k": k, "side": "r" if q["r"] else "p", "j": rnd.randrange(2), "c": rnd.choice([2, 3])}
+            who = ANALYSERS[:]
+            rnd.shuffle(who)
+            out.append((history_family(net, [{"op": "analyse", "config": "same", "who": who}, ed]), name + ":" + flavour))
+        # no edit at all: the same object analysed under other options immediately before the query
+        who = rnd.sample(ANALYSERS, 2)
+        hist = [{"op": "analyse", "config": rnd.choice(["stoich-flipped", "view-flipped", "keys-flipped"]), "who": who}]
+        out.append(([{"rxns": net["rxns"], "isolated": net.get("isolated", []), "history": hist}, net], name + ":options"))
+    return out
+
+
+def count_history(ctx, net):
+    if net.get("rebuild"):
+        ctx.count("history:rebuilt-twin")
+        return
+    def walk(hist):
+        for op in hist:
+            ctx.count("history_step:" + op["op"] + (":" + (op.get("config") if op.get("config") in ("same", "stoich-flipped", "view-flipped", "keys-flipped") else "named-options") if op["op"].startswith("analyse") else "")
+                      + (":keep-orphan" if op["op"] == "drop_species" and not op.get("prune") else ""))
+            for w in op.get("who", []):
+                ctx.count("history_analyser:" + w)
+            walk(op.get("other", []))
+    walk(net["history"])
+    ctx.count("history_len:%d" % min(len(net["history"]), 8))
+
+
 # ---------------------------------------------------------------- entry points
 ALL = [c["name"] for c in CONFIGS]
 
@@ -750,6 +1136,9 @@ def run(ctx):
         "'structure-preserving' is read with the node and arc attribute keys the analyser is configured with (DESIGN 5a); 'identical canonical graphs' = equal node ids 1..N, "
         "equal selected node attributes, equal arc sets with equal selected arc attributes",
         "WLCanonicalizer is documented as approximate: only faithfulness of its relabelled graph is gated; its cells are recorded against the exact orbits",
+        "in-place edits of the history stream go through add_rxn / remove_rxn / remove_species, or change a coefficient (>= 1) of a species already on a side / the rule field of a stored "
+        "reaction (the store stays consistent); a helper object keeps the view it built on first use (documented as cached), so a helper created before an edit may describe the network "
+        "as it was then or as it is now, nothing else; new helper objects must describe the current content",
     ]
     ctx.gen_rule = (
         "regression corpus first; symmetric families (rings of 2..6 identical reactions, A+B<=>C, 2A+B>>C, stars, repeated reactions, components, catalysts, "
@@ -758,7 +1147,13 @@ def run(ctx):
         "each under all 6 species permutations; random networks (2..6 species, 1..5 reactions, coefficients 1..3, catalysts, repeated reactions, rules from a 3-letter alphabet, "
         "isolated species) with 2 renamings (fresh labels, shuffled sides and reaction order, generated or explicit ids) and 2 near misses (one coefficient, one arc moved "
         "across the arrow, sides swapped, one rule label); a few networks with a species named like a reaction id (finding F19). Every member is analysed under 5 configurations "
-        "(bipartite/species view x stoichiometry on/off, plus kind+label node keys).")
+        "(bipartite/species view x stoichiometry on/off, plus kind+label node keys); the symmetric families also under 2 option variations (permuted edge / node key lists, "
+        "label among the node keys of the species view). History stream: a network (every symmetric family; random networks of <=5 species / <=4 reactions, generated or explicit ids) "
+        "is analysed (1..3 of canonicaliser / VF2 analyser / WL helper in random order, class or functional wrapper, mostly under the options of the final query, sometimes under others), "
+        "edited in place (a reaction removed and re-added under its id with a one-edit variant / random / identical content, edit followed by its inverse, a coefficient or the rule of a "
+        "stored reaction set directly, remove_species keeping or pruning the orphan, reactions added / removed, a copy forked off with the edit going to the copy or to the original), "
+        "possibly analysed and edited again, possibly with a different network of the same labels and ids analysed in between, and then queried; each history comes with a brand-new "
+        "object of the same final content and ids and with its starting network, under 4 of the 7 configurations (structured ones under all 7).")
     ctx.nontrivial_rule = "(store content, configuration) distinct as a JSON value; the view has >= 3 nodes and >= 2 arcs"
     build_and_audit(ctx, ["SynKitProofs.Props.C18"], "SynKitProofs/Audit/C18.lean", THEOREMS)
     rnd = ctx.rnd
@@ -782,6 +1177,38 @@ def run(ctx):
 
     # F19 class
     evaluate(ctx, [([n, rename_net(n, rnd)], ALL) for n in f19_nets()], "f19")
+
+    # option variation on the symmetric families: permuted key lists, label among the node keys of the species view
+    XCFG = [c["name"] for c in CONFIGS_X]
+    fams = []
+    for name, net in symmetric_families():
+        members = [net, rename_net(net, rnd), rename_net(net, rnd, ids="explicit", keep_labels=True)]
+        nm = near_miss(net, rnd)
+        if nm:
+            members.append(nm[0])
+        fams.append((members, XCFG))
+    evaluate(ctx, fams, "symmetric-options")
+
+    # histories on one object: analyse -> edit in place -> analyse again (new and old helper objects)
+    HCFG = ALL + XCFG
+    fams = [(members, HCFG) for members, _ in structured_histories(rnd)]
+    ctx.count("families:history-structured", len(fams))
+    nh = 70 if ctx.quick else 700
+    for _ in range(nh):
+        net = random_net(rnd, max_species=5, max_rxns=4)
+        net["isolated"] = []
+        if rnd.random() < 0.4:
+            for k, q in enumerate(net["rxns"]):
+                q["eid"] = "e%d" % k
+        hist, kinds = random_history(rnd, net)
+        for kd in kinds:
+            ctx.count("history_edit:" + kd)
+        fams.append((history_family(net, hist), rnd.sample(HCFG, 4)))
+    ctx.count("families:history-random", nh)
+    for b in batches(fams, 60):
+        if len(ctx.violations) < 20:
+            evaluate(ctx, b, "history")
+
 
     # exhaustive small networks under all species permutations
     ex1 = exhaustive_nets(False)
